@@ -63,10 +63,20 @@ def _mesh_world(cells, edge_mode, rng=None, mesh=None) -> dict:
         enc = {"edge_dim": "implied", "supplied": ["en"]}
     elif edge_mode == "declared":
         enc = {"edge_dim": "declared", "supplied": ["en"]}
+    elif edge_mode == "declared-transposed":      # connectivity stored (Two, edge): only the attribute names the edge dimension
+        enc = {"edge_dim": "declared", "supplied": ["en"], "transposed": True}
     w = W.counts_world("ugrid", nface=len(m["faces"]), nnode=len(m["nodes"]),
                        nedge=len(edges) if edge_mode != "absent" else -1)
     w["mesh"] = m
     w["enc"] = enc
+    return w
+
+
+def _x_first(w: dict) -> dict:
+    """the same world concretised with a first variable stored (x, y): the dataset's own dimension order is x before y"""
+    w = dict(w)
+    w["vars"] = [{"name": "flag", "kind": "face", "dims": ["@1", "@0"], "dtype": "i4", "base": 1}]
+    w["first_var"] = "flag"
     return w
 
 
@@ -77,10 +87,12 @@ def cases(tier: str, seed: int) -> list[dict]:
     for w in _emit_worlds(maxdim):
         w = dict(w)
         out.append({"src": "mc", "w": w, "events": _events(w, MARGIN)})
+        if w["conv"] != "ugrid" and w["ny"] != w["nx"]:
+            out.append({"src": "mc", "w": _x_first(w), "events": _events(w, MARGIN)})
     # meshes of the lattice family, each with the three edge-dimension modes
     fam = [[["Q"]], [["A"]], [["Q", "B"]], [["Q", "A"], ["N", "Q"]], [["A", "B"], ["B", "Q"]], [["H", "h"], ["Q", "N"]]]
     for cells in fam:
-        for mode in ("absent", "implied", "declared"):
+        for mode in ("absent", "implied", "declared", "declared-transposed"):
             w = _mesh_world(cells, mode)
             out.append({"src": "mc", "w": w, "events": _events(w, MARGIN)})
     # seeded larger scenarios outside the TLC universe
@@ -89,10 +101,12 @@ def cases(tier: str, seed: int) -> list[dict]:
         conv = rng.choice(W.STRUCTURED)
         ny, nx = rng.randint(1, 7), rng.randint(1, 9)
         w = W.counts_world(conv, ny=ny, nx=nx)
+        if rng.random() < .5:
+            w = _x_first(w)
         out.append({"src": "rand", "w": w, "events": _events(w, 3)})
     for _ in range(nrand // 2):
         m = W.random_mesh(rng, rng.randint(2, 7), rng.randint(2, 6))
-        w = _mesh_world(None, rng.choice(["absent", "implied", "declared"]), mesh=m)
+        w = _mesh_world(None, rng.choice(["absent", "implied", "declared", "declared-transposed"]), mesh=m)
         out.append({"src": "rand", "w": w, "events": _events(w, 3)})
     return out
 
